@@ -214,7 +214,9 @@ fn scenario(ctx: &Ctx, out: &mut Outcome, rng: &mut Rng, idx: u64) {
     let local_backend = rng.chance(1, 3);
     // (the last two: "keep for ever" settings whose nanosecond count does not fit an i64)
     let retention_days = *rng.pick(&[1u32, 1, 1, 90, 90, 36_500, 36_500, 200_000, u32::MAX]);
-    let grace_s = *rng.pick(&[0u64, 1, 300, 300]);
+    // (the last two: "never collect" settings beyond what the date arithmetic can represent)
+    let grace_s = *rng.pick(&[0u64, 0, 1, 1, 300, 300, 300, 1u64 << 50, u64::MAX]);
+    let grace_jump_s = grace_s.min(300); // what the harness' clock jumps are derived from
     let nchunks = 4 + rng.usize(7);
     let ncycles = 2 + rng.usize(3);
     let nqueries = rng.usize(4);
@@ -422,9 +424,9 @@ fn scenario(ctx: &Ctx, out: &mut Outcome, rng: &mut Rng, idx: u64) {
                     }
                 }
                 // let the grace pass for everything persisted, then start a fresh compactor through run()
-                clock::advance_wall((grace_s as i64 + 5) * S);
-                ctl.mark("clock", "CLOCK", &format!("+{}s (before restart)", grace_s + 5), "");
-                restart_clock_after_grace = true;
+                clock::advance_wall((grace_jump_s as i64 + 5) * S);
+                ctl.mark("clock", "CLOCK", &format!("+{}s (before restart)", grace_jump_s + 5), "");
+                restart_clock_after_grace = grace_s <= 300;
                 let c2 = Compactor::new(cfg2.clone(), ctl.store("comp2"), mk_meta(&ctl, "comp2"), storage_config(), monitor.clone()).with_pin_registry(registry.clone());
                 // an operator removes one live chunk by hand on the new instance before its service loop
                 // starts (catalog removal, then the public schedule_deletion): a FRESH pending deletion sits
@@ -546,7 +548,7 @@ fn scenario(ctx: &Ctx, out: &mut Outcome, rng: &mut Rng, idx: u64) {
     let ever: BTreeSet<String> = history.iter().flat_map(|h| h.2.iter().cloned()).collect();
     let delete_seqs: Vec<u64> = res.events.iter().filter(|e| e.op == "DELETE" && !e.call && e.result != "injected-before").map(|e| e.seq).collect();
     // ---- G1..G4 on every data-file DELETE
-    let grace_ns = grace_s as i64 * S;
+    let grace_ns = (grace_s as i128 * S as i128).min(i64::MAX as i128) as i64;
     let mut judged = 0u64;
     for (di, (path, t, pinned)) in res.deletes.iter().enumerate() {
         if !path.ends_with(".parquet") {
